@@ -1,5 +1,6 @@
 //! C05: CPR global decoding — truth round trip through a reference encoder, raw quadruples,
 //! and the complete NL table observed through the public API.
+use crate::bits;
 use crate::core::*;
 use crate::framecheck::last_panic;
 use crate::refcpr::{self, RefDecode};
@@ -12,7 +13,16 @@ use std::panic::{catch_unwind, AssertUnwindSafe};
 const GUARD: f64 = 1e-7; // the library's table is given to 8 decimals
 
 pub fn report(parity: u32, yz: u32, xz: u32) -> Altitude {
-    Altitude { odd_flag: if parity == 0 { CPRFormat::Even } else { CPRFormat::Odd }, lat_cpr: yz, lon_cpr: xz, ..Altitude::default() }
+    // everything besides parity and the two CPR words is without influence on the pairing: the
+    // type code (accuracy category, it changes in flight), the time bit and the altitude vary
+    // with the content, so that the two reports of a pair usually differ in them
+    let h = (yz as u64).wrapping_mul(0x9e37_79b9_7f4a_7c15).wrapping_add(xz as u64 * 31 + parity as u64).rotate_left(17);
+    let tcs = [9u8, 10, 11, 12, 13, 14, 15, 16, 17, 18, 20, 21, 22, 0];
+    let mut a = Altitude { odd_flag: if parity == 0 { CPRFormat::Even } else { CPRFormat::Odd }, lat_cpr: yz, lon_cpr: xz, ..Altitude::default() };
+    a.tc = tcs[(h % tcs.len() as u64) as usize];
+    a.t = (h >> 8) & 1 == 1;
+    a.alt = if (h >> 9) % 5 == 0 { None } else { Some(((h >> 12) % 50_000) as u16) };
+    a
 }
 
 fn call(first: &Altitude, second: &Altitude) -> Result<Option<Position>, String> {
@@ -396,6 +406,19 @@ pub fn replay_c05(v: &Value) -> Vec<Failure> {
             eval_raw(t("first"), t("second")).0
         }
         Some("cpr_nl") => eval_nl_probe(gu("parity"), gu("zone"), gu("yz")).0,
+        Some("pair_nostd") => {
+            let a = v.get("first").and_then(|h| h.as_str()).and_then(bits::unhex).unwrap_or_default();
+            let b = v.get("second").and_then(|h| h.as_str()).and_then(bits::unhex).unwrap_or_default();
+            let mut worker = crate::configs::Worker::spawn();
+            let answers = worker.ask(&["R".to_string(), format!("F {}", bits::hex(&a)), format!("F {}", bits::hex(&b))]);
+            let theirs = answers.get(2).and_then(|t| t.lines().find(|l| l.starts_with("PAIR ")).map(|l| l.to_string()));
+            let mine = crate::configs::pair_line_std(&a, &b);
+            if theirs != mine {
+                vec![("C05/no_std/pairing".to_string(), format!("this build gives `{}`, the alloc-only build gives `{}`", mine.unwrap_or_default(), theirs.unwrap_or_default()))]
+            } else {
+                vec![]
+            }
+        }
         Some("cold_start") => {
             let t = |k: &str| {
                 let a = v.get(k).and_then(|x| x.as_array()).cloned().unwrap_or_default();
@@ -607,6 +630,57 @@ pub fn run_c05(ctx: &Ctx) -> ! {
             if !st.failures.contains_key(&sig) {
                 st.fail(Failure { sig, msg, replay });
             }
+        }
+    }
+    // ---- the same pairings in the alloc-only (no_std) build, whose floating-point helpers are
+    // another crate's: a sample of true positions over the whole sphere, both hemispheres, as
+    // two DF17 squitters decoded and paired (both orders) by the worker process
+    if std::env::var("VWORKER_BIN").is_ok() {
+        let mut rng = ctx.rng(56, 0);
+        let mut worker = crate::configs::Worker::spawn();
+        let n = ctx.tier.pick(12_000usize, 400_000);
+        let mut bad: Option<(String, Value)> = None;
+        let mk = |parity: u32, yz: u32, xz: u32| -> Vec<u8> {
+            let mut me = [0u8; 7];
+            bits::set(&mut me, 1, 5, 11);
+            bits::set(&mut me, 9, 12, 0x5d0);
+            bits::set(&mut me, 22, 1, parity as u64);
+            bits::set(&mut me, 23, 17, yz as u64);
+            bits::set(&mut me, 40, 17, xz as u64);
+            crate::framegen::squitter(17, 5, 0x3c6586, &me)
+        };
+        let mut done = 0usize;
+        while done < n {
+            let mut reqs = vec![];
+            let mut frames = vec![];
+            for _ in 0..256 {
+                let lat = rng.below(1_790_000) as f64 / 10_000.0 - 89.5;
+                let lon = rng.below(3_600_000) as f64 / 10_000.0 - 180.0;
+                let e = refcpr::encode(lat, lon, 0);
+                let (lat2, lon2) = refcpr::destination((lat, lon), rng.below(360) as f64, rng.below(50) as f64 / 10.0);
+                let o = refcpr::encode(lat2, lon2, 1);
+                let (fe, fo) = (mk(0, e.0, e.1), mk(1, o.0, o.1));
+                let (a, b) = if rng.chance(1, 2) { (fe, fo) } else { (fo, fe) };
+                reqs.push("R".to_string());
+                reqs.push(format!("F {}", bits::hex(&a)));
+                reqs.push(format!("F {}", bits::hex(&b)));
+                frames.push((a, b));
+            }
+            let answers = worker.ask(&reqs);
+            for (i, (a, b)) in frames.iter().enumerate() {
+                let theirs = answers.get(3 * i + 2).and_then(|t| t.lines().find(|l| l.starts_with("PAIR ")).map(|l| l.to_string()));
+                let mine = crate::configs::pair_line_std(a, b);
+                if theirs != mine && bad.is_none() {
+                    bad = Some((format!("the pairing of {} and {}: this build gives `{}`, the alloc-only build gives `{}`", bits::hex(a), bits::hex(b), mine.clone().unwrap_or_default(), theirs.clone().unwrap_or_default()), json!({"kind": "pair_nostd", "first": bits::hex(a), "second": bits::hex(b)})));
+                }
+            }
+            done += 256;
+        }
+        st.evaluations += done as u64;
+        st.nontrivial_enum += done as u64;
+        st.class_n("pairing in the alloc-only build", done as u64);
+        if let Some((msg, replay)) = bad {
+            st.fail(Failure { sig: "C05/no_std/pairing".into(), msg, replay });
         }
     }
     st.samples.push(json!({"kind":"cpr_nl","parity":0,"zone":8,"yz":70000,"meaning":"probe of even zone latitude 6*(8+70000/2^17) deg"}));
